@@ -1,6 +1,7 @@
 import TensorModel.Run
 import TensorModel.Proofs.Views
 import TensorModel.Proofs.Builds
+import TensorModel.Proofs.OperandCopy
 /-!
   C20 — alternative engines and build configurations are observationally equivalent.
   Property theorems only (helper lemmas: `Proofs/Builds.lean`, `Proofs/Views.lean`).
@@ -11,8 +12,11 @@ import TensorModel.Proofs.Builds
   * engines: `Float64Engine` / `Float32Engine` `Add` and `FMA` (model `Ext/Engines.lean`) coincide
     with the default engine (model `Eng.lean`): `Add` defers to it whenever an operand needs an
     iterator, the shapes differ or the data orders differ, and equals it on the raw-storage path;
-    `FMA` refuses operands of different shapes like the default engine and equals its `MulIncr` kernel
-    on the contiguous path (the former exception F37 — no shape / order check — is repaired);
+    `FMA` refuses operands of different shapes like the default engine and equals its `Mul(…, WithIncr(y))` for
+    every layout of unmasked operands - iterator path and fused raw kernel, operands overlapping the increment
+    tensor included (`floatFMA_eq_std_all`; `floatFMA_eq_std` is the contiguous case without the mask hypothesis);
+    `FMAScalar` equals `MulScalar(…, WithIncr(y))` on the contiguous path (the former exception F37 — no shape /
+    order check — is repaired);
   * build `inplacetranspose`: not modelled separately — the single model is compared with all three
     builds by the correspondence run (see DESIGN.md §4 C20).
 -/
@@ -222,6 +226,80 @@ theorem floatFMA_eq_std (s : St) (e : Eng) (a x y : Dense)
     fun _ _ => rfl
   simp [hia, hix, hiy, hdt, hdx, hdy, hsh, hshy, hord, hordy, hoxy, hnum, hk, hleny, hna, hnx, hv, hty, hnr, hpa, hbind]
 
+/-- `FMA(a, x, y)` for **every layout** of unmasked operands (contiguous, lazily transposed, views, mixed data orders; operands
+    overlapping the increment tensor included): the specialised engines' `FMA` is the default engine's
+    `Mul(a, x, WithIncr(y))`. Both start with `prepDataVV` (an operand that shares memory with `y` is replaced by a clone,
+    which has the same type, shape, order, length and iterator requirement), take the iterator kernel under the same
+    condition and the fused raw kernel otherwise. Remaining hypotheses: `y` already has the operands' shape (no reshape
+    by `handleFuncOpts`) and neither operand's storage window is a single cell (the scalar dispatch of `E.MulIncr`). -/
+theorem floatFMA_eq_std_all (s : St) (e : Eng) (a x y : Dense)
+    (he : e ≠ .std) (hdt : a.dt = engDt e) (hdx : x.dt = a.dt) (hdy : y.dt = a.dt)
+    (hshy : shapeEq y.shape a.shape = true)
+    (hleny : (y.win.len : Int) = totalSize a.shape)
+    (hna : a.win.len ≠ 1) (hnx : x.win.len ≠ 1)
+    (hma : a.mask = none) (hmx : x.mask = none) :
+    engFloatFMA s e a x y = engArithVV s "mul" numberTypes a x { incr := some y } := by
+  have hnum : engDt e ∈ numberTypes := by
+    cases e <;> simp_all [engDt, numberTypes]
+  cases hsh : shapeEq a.shape x.shape with
+  | false =>
+    rw [floatFMA_refuses_shape_mismatch s e a x y hdt hdx hdy hsh]
+    unfold engArithVV
+    simp [hdt, hdx, hsh, hnum, throwErr, bind, Except.bind]
+  | true =>
+  have hk : engDt e ∈ kernelTypes "mul" := by
+    simpa [kernelTypes] using hnum
+  have hv : vecFn "mul" (engDt e) = fun p q => Val.app2 "mul" p q := by
+    simp [vecFn]
+  have hty : totalSize y.shape = totalSize a.shape := shapeEq_totalSize _ _ hshy
+  cases hp : prepAliasVV s a x (some y) with
+  | error err =>
+    unfold engFloatFMA engArithVV handleFuncOpts
+    simp [hdt, hdx, hdy, hsh, hshy, hnum, hleny, hty, hp, bind, Except.bind, pure, Except.pure]
+  | ok p =>
+    obtain ⟨s1, a1, x1⟩ := p
+    obtain ⟨⟨fa1, fa2, fa3, fa4, fa5⟩, ⟨fx1, fx2, fx3, fx4, fx5⟩⟩ := prepAliasVV_facts s s1 a x y a1 x1 hma hmx hp
+    have hnr : incrRefused a1.win x1.win y.win = false := by simp [incrRefused, isSc, fa2, fx2, hna, hnx]
+    have hbind : ∀ (p : St × Dense × Dense) (f : St × Dense × Dense → Res EngOut), (Except.ok p >>= f) = f p :=
+      fun _ _ => rfl
+    unfold engFloatFMA engArithVV handleFuncOpts eOpIncr eOpIterIncr isSc
+    simp [hdt, hdx, hdy, hsh, hshy, hnum, hk, hleny, hna, hnx, hv, hty, hnr, hp, hbind,
+      fa1, fa2, fx1, fx2]
+    simp only [or_assoc]
+
+/-- `FMAScalar(a, x, y)`, contiguous path, literal scalar `x`: the specialised engines' kernel is the default engine's
+    `MulScalar(a, x, leftTensor, WithIncr(y))` (`a` unmasked; it may overlap `y`) -/
+theorem floatFMAScalar_eq_std (s : St) (e : Eng) (a y : Dense) (x : ScalarArg)
+    (he : e ≠ .std) (hdt : a.dt = engDt e) (hdx : x.dt = a.dt) (hdy : y.dt = a.dt)
+    (hshy : shapeEq y.shape a.shape = true)
+    (hordy : sameOrd y a = true)
+    (hia : a.requiresIterator = false) (hiy : y.requiresIterator = false)
+    (hleny : (y.win.len : Int) = totalSize a.shape)
+    (hna : a.win.len ≠ 1) (hny : y.win.len ≠ 1) (hx1 : x.win.len = 1) (hlit : x.src = none)
+    (hma : a.mask = none) :
+    engFloatFMAScalar s e a x y = engArithScalar s "mul" numberTypes a x true { incr := some y } := by
+  have hnum : engDt e ∈ numberTypes := by
+    cases e <;> simp_all [engDt, numberTypes]
+  have hk : engDt e ∈ kernelTypes "mul" := by
+    simpa [kernelTypes] using hnum
+  have hv : vecFn "mul" (engDt e) = fun p q => Val.app2 "mul" p q := by
+    simp [vecFn]
+  have hty : totalSize y.shape = totalSize a.shape := shapeEq_totalSize _ _ hshy
+  have hrf : ∀ s' : St, x.refresh s' = s' := fun s' => by simp [ScalarArg.refresh, hlit]
+  cases hp : prepAliasT s a (some y) with
+  | error err =>
+    unfold engFloatFMAScalar engArithScalar handleFuncOpts
+    simp [hdt, hdx, hdy, hshy, hnum, hleny, hty, hp, bind, Except.bind, pure, Except.pure]
+  | ok p =>
+    obtain ⟨s1, a1⟩ := p
+    obtain ⟨fa1, fa2, fa3, fa4, fa5, _⟩ := operandFor_facts s s1 a y a1 true hma hp
+    have hordy1 : sameOrd y a1 = true := by unfold sameOrd at *; rw [fa3]; exact hordy
+    have hnr : incrRefused a1.win x.win y.win = false := by simp [incrRefused, isSc, fa2, hna, hny, hx1]
+    unfold engFloatFMAScalar engArithScalar handleFuncOpts eOpIncr isSc
+    simp [hia, hiy, hdt, hdx, hdy, hshy, hordy, hnum, hk, hleny, hna, hny, hx1, hv, hty, hnr, hp, hrf,
+      fa1, fa2, fa4, fa5, hordy1, bind, Except.bind, pure, Except.pure]
+    cases s1.rd x.win 1 0 <;> rfl
+
 /-! ## non-vacuity -/
 
 /-- two contiguous f64 vectors of length 2 over buffers 0 and 1 -/
@@ -237,6 +315,21 @@ example : Eng.f64 ≠ .std ∧ wA.dt = engDt .f64 ∧ wB.dt = wA.dt ∧ shapeEq 
 
 /-- … and on that instance the call does succeed (the equality is not between two errors) -/
 example : (match engFloatAdd wSt .f64 wA wB { unsafe_ := true } with | .ok _ => true | .error _ => false) = true := by decide
+
+/-- `floatFMA_eq_std_all` on an overlapping instance: `FMA(wA, wB, wB)` succeeds (the second operand is copied) -/
+example : (match engFloatFMA wSt .f64 wA wB wB with | .ok _ => true | .error _ => false) = true ∧
+    sharesMemory wB wB = true ∧ wA.mask = none ∧ wB.mask = none := by decide
+
+/-- … and on the iterator path: a column-major flagged second operand (`sameOrd` fails) -/
+def wBc : Dense := { wB with ap := { wB.ap with o := { wB.ap.o with col := true } } }
+example : sameOrd wA wBc = false ∧
+    (match engFloatFMA wSt .f64 wA wBc wB with | .ok _ => true | .error _ => false) = true := by decide
+
+/-- `floatFMAScalar_eq_std`: a literal scalar in its own one-cell buffer -/
+def wSt3 : St := { heap := #[#[.src 0 0, .src 0 1], #[.src 1 0, .src 1 1, .src 1 2], #[.src 2 0]] }
+def wX : ScalarArg := { win := ⟨2, 0, 1, 1⟩, dt := "f64" }
+example : wX.win.len = 1 ∧ wX.src = none ∧ wX.dt = wA.dt ∧ sameOrd wB wA = true ∧
+    (match engFloatFMAScalar wSt3 .f64 wA wX wB with | .ok _ => true | .error _ => false) = true := by decide
 
 /-- operands of *different shapes* (lengths 2 and 3) are refused by the specialised engine as by the
     default engine (this pair was the witness of the former finding F37) -/
